@@ -838,7 +838,7 @@ pub static ENTRIES: &[Entry] = &[
     Entry { name: "ev.state_content", traits: T_JSON | T_BYTES, f: ev_state_content },
     Entry { name: "push.ruleset", traits: T_JSON | T_BYTES, f: push_ruleset },
     Entry { name: "push.event", traits: T_JSON | T_BYTES, f: push_event },
-    Entry { name: "push.glob", traits: T_DELIM, f: push_glob },
+    Entry { name: "push.glob", traits: T_DELIM | crate::mutate::T_GLOB, f: push_glob },
     Entry { name: "push.edits", traits: T_JSON | T_BYTES | T_ANCHOR, f: push_edits },
     Entry { name: "sig.canonical", traits: T_JSON | T_BYTES, f: sig_canonical },
     Entry { name: "sig.verify_json", traits: T_JSON | T_BYTES, f: sig_verify_json },
